@@ -100,9 +100,13 @@ func (c *Case) req(fmtr string, args []string, repeat int) GenReq {
 func (c *Case) srcAliases() []srcAlias {
 	by := map[string]map[string]bool{}
 	for _, it := range c.Src.Ifaces {
-		for _, am := range it.Aliases {
+		for mi, am := range it.Aliases {
 			for p, a := range am {
 				if a == "" || a == "." || a == "_" {
+					continue
+				}
+				// an alias only exists in the source if that file really imports the package
+				if !fileUses(&it, mi, p) {
 					continue
 				}
 				path := c.Src.Pkgs[p].Path
@@ -372,4 +376,38 @@ func describe(c *Case) map[string]any {
 		d["output"] = c.Resp.Out
 	}
 	return d
+}
+
+// fileUses: does the file of method mi (or, for one-file interfaces, the
+// interface's file) mention package p?
+func fileUses(it *Iface, mi int, p int) bool {
+	uses := func(m Method) bool {
+		var idx []int
+		for _, q := range m.Params {
+			walk(q.T, &idx)
+		}
+		for _, q := range m.Results {
+			walk(q.T, &idx)
+		}
+		for _, i := range idx {
+			if i == p {
+				return true
+			}
+		}
+		return false
+	}
+	if it.OneFile || len(it.TParams) > 0 {
+		for _, tp := range it.TParams {
+			if tp.Constraint == fmt.Sprintf("pkgnum:%d", p) || tp.Constraint == fmt.Sprintf("pkgiface:%d", p) {
+				return true
+			}
+		}
+		for _, m := range it.Methods {
+			if uses(m) {
+				return true
+			}
+		}
+		return false
+	}
+	return mi < len(it.Methods) && uses(it.Methods[mi])
 }
